@@ -29,18 +29,29 @@ type c15sCase struct {
 	// Reuse: the client uses one core.Context for all its requests (to
 	// every location) instead of a fresh one per request.
 	Reuse bool `json:"reuse,omitempty"`
+	// Parent: A and B have the parent P (which has a yearly rule of its
+	// own); "outage" operations switch P off for a while, so that the
+	// ticks of A and B fail while they look at their parent.
+	Parent bool `json:"parent,omitempty"`
 }
 
 func genC15Sys(t *rapid.T) c15sCase {
 	var c c15sCase
 	c.Linear = rapid.Bool().Draw(t, "linear")
 	c.Reuse = rapid.Bool().Draw(t, "reuse")
+	c.Parent = rapid.Bool().Draw(t, "parent")
 	n := rapid.IntRange(2, 12).Draw(t, "nops")
 	for i := 0; i < n; i++ {
 		l := fmt.Sprintf("op%d", i)
 		loc := rapid.SampledFrom([]string{"A", "B"}).Draw(t, l+".loc")
 		id := rapid.SampledFrom([]string{"s1", "s2"}).Draw(t, l+".id")
-		switch rapid.SampledFrom([]string{"sched", "sched", "sched", "rem", "rule", "clear", "sleep", "sleep", "sleep", "restart"}).Draw(t, l+".kind") {
+		kinds := []string{"sched", "sched", "sched", "rem", "rule", "clear", "sleep", "sleep", "sleep", "restart"}
+		if c.Parent {
+			kinds = append(kinds, "outage", "outage")
+		}
+		switch rapid.SampledFrom(kinds).Draw(t, l+".kind") {
+		case "outage":
+			c.Ops = append(c.Ops, op{K: "outage", N: rapid.SampledFrom([]int64{1100e6, 2300e6}).Draw(t, l+".ns")})
 		case "restart":
 			c.Ops = append(c.Ops, op{K: "restart"})
 		case "sched":
@@ -100,6 +111,7 @@ func runC15Sys(c c15sCase) *vlib.Outcome {
 	defer os.RemoveAll(dir)
 	// firings are recorded outside the locations (a Clear would wipe them)
 	fired := map[string]map[string]int{"A": {}, "B": {}} // loc -> tag -> count
+	lastFired := map[string]time.Time{}                  // tag -> instant of the last run
 	var fmu sync.Mutex
 	var cr *cron.Cron
 	var s *sys.System
@@ -126,6 +138,7 @@ func runC15Sys(c c15sCase) *vlib.Outcome {
 					fired[loc] = map[string]int{}
 				}
 				fired[loc][tag]++
+				lastFired[tag] = time.Now()
 				fmu.Unlock()
 				return otto.TrueValue()
 			},
@@ -156,8 +169,37 @@ func runC15Sys(c c15sCase) *vlib.Outcome {
 	if c.Reuse {
 		o.Label("one-context-for-all-requests")
 	}
+	if c.Parent {
+		for _, ln := range []string{"A", "B"} {
+			if _, err := s.SetParents(newCtx(), ln, []string{"P"}); err != nil {
+				o.Fail("NEWSYSTEM", "SetParents: %v", err)
+				return o
+			}
+		}
+		if _, err := s.AddFact(newCtx(), "P", "likes", `{"likes":"tacos"}`); err != nil {
+			o.Fail("NEWSYSTEM", "AddFact P: %v", err)
+			return o
+		}
+		// P's own scheduled rule: due on 1 January only
+		js, _ := json.Marshal(M{"schedule": "0 0 0 1 1 * *", "action": M{"code": "Env.record('P-yearly', Env.Location); 'ok'"}})
+		if _, err := s.AddRule(newCtx(), "P", "s1", string(js)); err != nil {
+			o.Fail("NEWSYSTEM", "AddRule P: %v", err)
+			return o
+		}
+		o.Label("parent")
+	}
 	t0 := time.Now()
 	rel := func(t time.Time) string { return "+" + t.Sub(t0).String() }
+	type span struct{ from, to time.Time }
+	var outages []span
+	inOutage := func(t time.Time) bool {
+		for _, sp := range outages {
+			if !t.Before(sp.from.Add(-time.Second)) && !t.After(sp.to.Add(time.Second)) {
+				return true
+			}
+		}
+		return false
+	}
 	var gens []*c15sGen
 	current := map[string]*c15sGen{}
 	shared := false
@@ -190,6 +232,10 @@ func runC15Sys(c c15sCase) *vlib.Outcome {
 				o.Label("bounded-schedule")
 			}
 			rule := M{"schedule": sched, "action": M{"code": fmt.Sprintf("Env.record('%s' + (location == Env.Location ? '' : '!location=' + location) + (ruleId == '%s' ? '' : '!ruleId=' + ruleId), Env.Location); Env.AddFact('', {fired: '%s'}); 'ok'", tag, x.Id, tag)}}
+			if c.Parent {
+				// the condition looks at the facts, the parent's included
+				rule["condition"] = M{"pattern": M{"likes": "?liked"}}
+			}
 			js, _ := json.Marshal(rule)
 			if _, err := s.AddRule(clientCtx(), x.Loc, x.Id, string(js)); err != nil {
 				o.Fail("ADDRULE_ERROR", "%s: %v", when, err)
@@ -226,8 +272,38 @@ func runC15Sys(c c15sCase) *vlib.Outcome {
 					retire(k)
 				}
 			}
+			if c.Parent {
+				// (the parents went with everything else)
+				if _, err := s.SetParents(clientCtx(), x.Loc, []string{"P"}); err != nil {
+					o.Fail("CLEAR_ERROR", "%s: SetParents after the clear: %v", when, err)
+					return o
+				}
+			}
 		case "sleep":
 			time.Sleep(time.Duration(x.N))
+		case "outage":
+			// the parent is out of order for a while: ticks of its
+			// children fail meanwhile, and work again afterwards
+			pctx := newCtx()
+			ploc, err := s.GetLocation(pctx, "P")
+			if err != nil {
+				o.Fail("OUTAGE", "%s: %v", when, err)
+				return o
+			}
+			pctx.SetLoc(ploc)
+			if err := ploc.SetProp(pctx, "", "enabled", "false"); err != nil {
+				o.Fail("OUTAGE", "%s: switching P off: %v", when, err)
+				return o
+			}
+			time.Sleep(time.Duration(x.N))
+			pctx = newCtx()
+			pctx.SetLoc(ploc)
+			if err := ploc.RemProp(pctx, "", "enabled"); err != nil {
+				o.Fail("OUTAGE", "%s: switching P on again: %v", when, err)
+				return o
+			}
+			outages = append(outages, span{now, time.Now()})
+			o.Label("parent-outage")
 		case "restart":
 			// the process restarts: the ephemeral cron loses its jobs;
 			// loading the locations again must register the scheduled
@@ -296,7 +372,16 @@ func runC15Sys(c c15sCase) *vlib.Outcome {
 		if g.bounded && n > 1 {
 			o.Fail("BOUNDED_SCHEDULE_RAN_TWICE", "rule %s has a schedule with one occurrence but ran %d times; %s", g.tag, n, hist())
 		}
+		if g.recurring && !g.bounded && g.removedAt.IsZero() && len(outages) > 0 {
+			// a recurring rule keeps running after its parent's outage
+			if last, ran := lastFired[g.tag]; g.due.Add(time.Second).Before(end) && (!ran || end.Sub(last) > 4500*time.Millisecond) {
+				o.Fail("SCHEDULED_RULE_DID_NOT_RUN", "recurring rule %s (location %s id %s, every 2 s) still exists but did not run in the last 4.5 s before the end (last run: %v, end %s; parent outages %v); %s", g.tag, g.loc, g.id, last.Sub(t0), rel(end), len(outages), hist())
+			}
+		}
 		live := g.removedAt.IsZero() || g.removedAt.After(g.due.Add(time.Second))
+		if inOutage(g.due) || inOutage(g.firstDue) {
+			live = false // (its tick fell into an outage of the parent)
+		}
 		if g.bounded && g.restarted {
 			live = false // (a restart may have fallen on the occurrence)
 		}
@@ -308,6 +393,11 @@ func runC15Sys(c c15sCase) *vlib.Outcome {
 			if _, err := s.GetRule(newCtx(), g.loc, g.id); err == nil {
 				o.Fail("ONESHOT_RULE_NOT_DELETED", "one-shot rule %s ran but %s/%s still exists; %s", g.tag, g.loc, g.id, hist())
 			}
+		}
+	}
+	for ln, m := range fired {
+		if m["P-yearly"] > 0 {
+			o.Fail("SCHEDULED_RULE_RAN_WHEN_NOT_DUE", "the rule of P, due on 1 January only, ran %d times (in %s); %s", m["P-yearly"], ln, hist())
 		}
 	}
 	if shared {
